@@ -88,7 +88,7 @@ def wfKids (kind : τ → VK) (kids : List (SN τ)) : List DN → Bool
        !n.contains 58 && dk.isEmpty && (match vals with | [v] => validValue (kind ty) v | _ => false)
      | some (.leafList _ ty _ _), .mk n dk vals =>
        !n.contains 58 && dk.isEmpty && decide (kind ty ≠ .empty) && vals.all (validValue (kind ty))
-     | _, _ => false) && wfKids kind kids r
+     | _, _ => false) && !(r.any fun x => x.name = d.name) && wfKids kind kids r
 /-- the entries of a list: named by the value of their key leaf -/
 def wfEntries (kind : τ → VK) (kids : List (SN τ)) (key : Tok) : List DN → Bool
   | [] => true
@@ -101,6 +101,44 @@ end
 
 theorem obind_some {α β} (a : α) (f : α → Option β) : ((some a : Option α) >>= f) = f a := rfl
 
+/-- the members the writer produces carry the names of the nodes: a name no node has, no member has -/
+theorem enc_no_name (kind : τ → VK) (rfc : Bool) (mo : List Tok → Tok) (hm : ∀ p, (mo p).contains 58 = false)
+    (kids : List (SN τ)) (path : List Tok) (pm : Tok) (x : Tok) :
+    ∀ (ds : List DN), wfKids kind kids ds = true → (ds.any fun d => d.name = x) = false →
+      ((encKids kind rfc mo path pm kids ds).any fun kv => stripMod kv.1 = x) = false
+  | [], _, _ => by simp [encKids]
+  | d :: r, h, hx => by
+    rw [wfKids.eq_def] at h
+    simp only [Bool.and_eq_true] at h
+    obtain ⟨⟨hd, _⟩, hr⟩ := h
+    simp only [List.any_cons, Bool.or_eq_false_iff, decide_eq_false_iff_not] at hx
+    obtain ⟨hdx, hrx⟩ := hx
+    have ihr := enc_no_name kind rfc mo hm kids path pm x r hr hrx
+    cases d with
+    | mk n dk vals =>
+      simp only [DN.name] at hd hdx
+      rw [encKids.eq_def]
+      simp only [DN.name, List.any_append, ihr, Bool.or_false]
+      cases hl : lookup n (dataKids kids) with
+      | none => simp [hl] at hd
+      | some sn =>
+        simp only [hl] at hd ⊢
+        cases sn with
+        | container cn cp ck =>
+          simp only [Bool.and_eq_true, Bool.not_eq_true'] at hd
+          simp [stripMod_jname rfc pm (mo (path ++ [n])) n (hm _) hd.1.1, hdx]
+        | list ln keys mn mx us ck =>
+          simp only [Bool.and_eq_true, Bool.not_eq_true'] at hd
+          simp [stripMod_jname rfc pm (mo (path ++ [n])) n (hm _) hd.1.1, hdx]
+        | leaf fn ty fd fm =>
+          simp only [Bool.and_eq_true, Bool.not_eq_true'] at hd
+          simp [stripMod_jname rfc pm (mo (path ++ [n])) n (hm _) hd.1.1, hdx]
+        | leafList fn ty mn mx =>
+          simp only [Bool.and_eq_true, Bool.not_eq_true'] at hd
+          simp [stripMod_jname rfc pm (mo (path ++ [n])) n (hm _) hd.1.1.1, hdx]
+        | choice a b c e => simp at hd
+        | case a b => simp at hd
+
 mutual
 /-- **round trip (JSON values).** decoding what the writer produces for the children of a node gives the
     children back — names, values, order -/
@@ -112,11 +150,12 @@ theorem dec_enc_kids (kind : τ → VK) (rfc : Bool) (mo : List Tok → Tok) (hm
   | path, pm, d :: r, h => by
     rw [wfKids.eq_def] at h
     simp only [Bool.and_eq_true] at h
-    obtain ⟨hd, hr⟩ := h
+    obtain ⟨⟨hd, hnd⟩, hr⟩ := h
     have ihr := dec_enc_kids kind rfc mo hm kids path pm r hr
     cases d with
     | mk n dk vals =>
-      simp only [DN.name] at hd
+      simp only [DN.name, Bool.not_eq_true'] at hd hnd
+      have hno := enc_no_name kind rfc mo hm kids path pm n r hr hnd
       rw [encKids.eq_def]
       simp only [DN.name]
       cases hl : lookup n (dataKids kids) with
@@ -130,7 +169,7 @@ theorem dec_enc_kids (kind : τ → VK) (rfc : Bool) (mo : List Tok → Tok) (hm
           subst hv
           simp only [List.singleton_append]
           rw [decKids.eq_def]
-          simp only [stripMod_jname rfc pm (mo (path ++ [n])) n (hm _) hn, hl]
+          simp only [stripMod_jname rfc pm (mo (path ++ [n])) n (hm _) hn, hl, hno]
           rw [dec_enc_kids kind rfc mo hm ck (path ++ [n]) (mo (path ++ [n])) dk hk, ihr]
           rfl
         | list ln keys mn mx us ck =>
@@ -139,7 +178,7 @@ theorem dec_enc_kids (kind : τ → VK) (rfc : Bool) (mo : List Tok → Tok) (hm
           subst hv
           simp only [List.singleton_append]
           rw [decKids.eq_def]
-          simp only [stripMod_jname rfc pm (mo (path ++ [n])) n (hm _) hn, hl]
+          simp only [stripMod_jname rfc pm (mo (path ++ [n])) n (hm _) hn, hl, hno]
           rw [dec_enc_entries kind rfc mo hm ck (keys.headD []) (path ++ [n]) (mo (path ++ [n])) dk hk, ihr]
           rfl
         | leaf fn ty fd fm =>
@@ -150,7 +189,7 @@ theorem dec_enc_kids (kind : τ → VK) (rfc : Bool) (mo : List Tok → Tok) (hm
           | [v], hv =>
             simp only [List.singleton_append]
             rw [decKids.eq_def]
-            simp only [stripMod_jname rfc pm (mo (path ++ [n])) n (hm _) hn, hl, values_write rfc (kind ty) v hv, ihr]
+            simp only [stripMod_jname rfc pm (mo (path ++ [n])) n (hm _) hn, hl, hno, values_write rfc (kind ty) v hv, ihr]
             rfl
         | leafList fn ty mn mx =>
           simp only [Bool.and_eq_true, Bool.not_eq_true', List.isEmpty_iff, decide_eq_true_eq, List.all_eq_true] at hd
@@ -158,7 +197,7 @@ theorem dec_enc_kids (kind : τ → VK) (rfc : Bool) (mo : List Tok → Tok) (hm
           subst hk
           simp only [List.singleton_append]
           rw [decKids.eq_def]
-          simp only [stripMod_jname rfc pm (mo (path ++ [n])) n (hm _) hn, hl, values_write_list rfc (kind ty) hne vals hv, ihr]
+          simp only [stripMod_jname rfc pm (mo (path ++ [n])) n (hm _) hn, hl, hno, values_write_list rfc (kind ty) hne vals hv, ihr]
           rfl
         | choice a b c e => simp at hd
         | case a b => simp at hd
